@@ -15,12 +15,12 @@ if [ "$what" = all ] || [ "$what" = coq ]; then
     timeout 3000 make -j16 > "$build/coq.log" 2>&1 ) || { echo "BUILD-FAIL coq (see $build/coq.log)"; rc=1; }
 fi
 if [ $rc = 0 ] && { [ "$what" = all ] || [ "$what" = driver ]; }; then
-  if [ ! -x "$build/driver" ] || [ "$root/coq/Extract.vo" -nt "$build/driver" ] || [ "$root/driver/driver.ml" -nt "$build/driver" ] \
+  if [ ! -x "$build/driver" ] || [ "$root/coq/Extract.vo" -nt "$build/driver" ] || [ "$root/driver/driver.ml" -nt "$build/driver" ] || [ "$root/driver/oracles.ml" -nt "$build/driver" ] \
      || [ -n "$(find "$root/coq" -name '*.vo' -newer "$build/driver" 2>/dev/null | head -1)" ]; then
     ( cd "$build/extract" && timeout 600 coqc -Q "$root/coq" Pory "$root/coq/Extract.v" > extract.log 2>&1 &&
-      cp "$root/driver/driver.ml" . &&
-      timeout 600 ocamlfind ocamlopt -O3 -unboxed-types 2>/dev/null -package str model.mli model.ml driver.ml -o ../driver.new > ocaml.log 2>&1 ||
-      timeout 600 ocamlfind ocamlopt -package str model.mli model.ml driver.ml -o ../driver.new > ocaml.log 2>&1 ) \
+      cp "$root/driver/driver.ml" "$root/driver/oracles.ml" . &&
+      timeout 600 ocamlfind ocamlopt -O3 -unboxed-types 2>/dev/null -package str model.mli model.ml oracles.ml driver.ml -o ../driver.new > ocaml.log 2>&1 ||
+      timeout 600 ocamlfind ocamlopt -package str model.mli model.ml oracles.ml driver.ml -o ../driver.new > ocaml.log 2>&1 ) \
       && mv "$build/driver.new" "$build/driver" || { echo "BUILD-FAIL driver (see $build/extract/ocaml.log)"; rc=1; }
   fi
 fi
